@@ -500,7 +500,7 @@ fn schema_literal(k: usize) -> BoxedStrategy<SchemaLit> {
                 proptest::collection::vec(schema_selection(t, 2), 1..4),
                 gen_iso::description(),
                 any::<bool>(),
-                gen_iso::layout(&p),
+                layout_c23(&p),
                 proptest::option::weighted(0.25, any::<u16>()),
                 proptest::bool::weighted(0.1),
             )
@@ -599,14 +599,45 @@ fn case_b(d: &gen_iso::Document, metas: &[SchemaLit]) -> Case {
     c
 }
 
+/// Layouts biased towards keeping many tokens on one line (so that tokens, request positions and
+/// diagnostics follow non-ASCII text on their line).
+fn layout_c23(p: &Params) -> BoxedStrategy<Layout> {
+    let flat = |gap: &str, conventional: bool| Layout { gaps: vec![gap.to_string()], seps: vec![gen_iso::Sep::Comma], lead: String::new(), trail: String::new(), conventional };
+    prop_oneof![
+        6 => gen_iso::layout(p),
+        2 => Just(flat(" ", true)),
+        1 => Just(flat(" ", false)),
+        1 => Just(flat("", false)),
+    ]
+    .boxed()
+}
+
+/// Noise before a literal; half of the time the last piece is a block comment with non-ASCII
+/// text, which stays on the line of the `export const ... = iso(` that follows.
+fn noise_before() -> BoxedStrategy<Vec<gen_iso::Noise>> {
+    (
+        proptest::collection::vec(gen_iso::noise(), 0..3),
+        proptest::option::weighted(0.5, proptest::sample::select(&["é", "漢字 😀", "😀", "ß Ω", "e\u{301}", "👩\u{200d}💻 x", "\u{10348}"][..])),
+    )
+        .prop_map(|(mut v, c)| {
+            if let Some(c) = c {
+                v.push(gen_iso::Noise::BlockComment(c.to_string()));
+            }
+            v
+        })
+        .boxed()
+}
+
 fn doc_a() -> BoxedStrategy<gen_iso::Document> {
-    gen_iso::document(gen_iso::printed_only(&Params::default()), 1..4)
+    let p = Params::default();
+    let item = (noise_before(), (gen_iso::literal(&p), layout_c23(&p)).prop_map(|(l, lay)| l.print(&lay)), gen_iso::embedding());
+    (proptest::collection::vec(item, 1..4), proptest::collection::vec(gen_iso::noise(), 0..2)).prop_map(|(items, tail)| gen_iso::assemble(&items, &tail)).boxed()
 }
 
 fn doc_b() -> BoxedStrategy<(gen_iso::Document, Vec<SchemaLit>)> {
     // literal names must be distinct within a document: draw 1..3 literals with indices 0,1,2
     let lits = (schema_literal(0), proptest::option::weighted(0.5, schema_literal(1)), proptest::option::weighted(0.3, schema_literal(2)));
-    (lits, proptest::collection::vec((proptest::collection::vec(gen_iso::noise(), 0..3), gen_iso::embedding()), 3), proptest::collection::vec(gen_iso::noise(), 0..2))
+    (lits, proptest::collection::vec((noise_before(), gen_iso::embedding()), 3), proptest::collection::vec(gen_iso::noise(), 0..2))
         .prop_map(|((a, b, c), wrap, tail)| {
             let metas: Vec<SchemaLit> = [Some(a), b, c].into_iter().flatten().collect();
             let items: Vec<_> = metas.iter().zip(wrap).map(|(m, (n, e))| (n, m.printed.clone(), e)).collect();
